@@ -20,17 +20,24 @@ import (
 	"github.com/nspcc-dev/neofs-node/pkg/services/object/common"
 	putsvc "github.com/nspcc-dev/neofs-node/pkg/services/object/put"
 	svcutil "github.com/nspcc-dev/neofs-node/pkg/services/object/util"
+	"github.com/google/uuid"
 	"github.com/nspcc-dev/neofs-sdk-go/checksum"
+	"github.com/nspcc-dev/neofs-sdk-go/container"
 	cid "github.com/nspcc-dev/neofs-sdk-go/container/id"
 	neofscrypto "github.com/nspcc-dev/neofs-sdk-go/crypto"
+	neofsecdsa "github.com/nspcc-dev/neofs-sdk-go/crypto/ecdsa"
+	"github.com/nspcc-dev/neofs-sdk-go/netmap"
 	"github.com/nspcc-dev/neofs-sdk-go/object"
 	oid "github.com/nspcc-dev/neofs-sdk-go/object/id"
+	protoobject "github.com/nspcc-dev/neofs-sdk-go/proto/object"
+	"github.com/nspcc-dev/neofs-sdk-go/session"
 	"github.com/nspcc-dev/neofs-sdk-go/user"
 	"github.com/nspcc-dev/neofs-sdk-go/version"
+	"google.golang.org/protobuf/proto"
 	"verifharness/internal/kit"
 )
 
-// valScenario: Path signed | replicate | trusted.
+// valScenario: Path signed | replicate | trusted | ecput | ecrepl (EC part through Put / through the replication validation).
 type valScenario struct {
 	Path   string `json:"path"`
 	Mut    string `json:"mut"`    // see mutations
@@ -40,6 +47,10 @@ type valScenario struct {
 	Chunks []int  `json:"chunks"` // sizes of the payload chunks streamed after the header
 	Max    int    `json:"max"`    // MaxObjectSize of the network (trusted path: slicing limit)
 	Fail   int    `json:"fail"`   // trusted path: the Fail-th stored object (1-based) is refused by the storage, 0 = none
+	Sess   string `json:"sess"`   // "" | "A" | "B": the object carries that V1 session token of its sequence
+	Seq    int    `json:"seq"`    // sequence number (steps of one sequence share tokens and run back to back), 0 = single
+	Step   int    `json:"step"`   // position in the sequence
+	Part   int    `json:"part"`   // ecput / ecrepl: which captured EC part is used
 }
 
 type valOut struct {
@@ -61,6 +72,12 @@ type valRecord struct {
 var sigMutations = []string{"none", "id", "idsigned", "sig", "sigkey", "checksum", "sizeLess", "sizeMore", "attrzero", "attrdup",
 	"attrempty", "ecattr", "nocnr", "noowner", "expired", "parentid", "nochecksum", "tzchecksum",
 	"streamShort", "streamLong", "toobig"}
+// mutations of an object created within a session (token of the owner, object signed by the session key)
+var sessMutations = []string{"none", "sessForeign", "sessOwner", "sessTokSig", "sessOtherTok", "sig", "id", "checksum", "attrdup"}
+
+// mutations of an EC part object (unsigned, bound to the signed parent header)
+var ecMutations = []string{"none", "ecid", "ecpartidx", "ecruleidx", "ecnoparent", "ecchecksum", "ecparthash", "ecsigned",
+	"ecparentsig", "ecparentid", "ecsize"}
 var trustedMutations = []string{"none", "attrzero", "attrdup", "attrempty", "ecattr", "expired"}
 
 type c24World struct {
@@ -69,6 +86,82 @@ type c24World struct {
 	failAt   int
 	putCount int
 	maxObj   uint64
+
+	ecMode  bool            // the container has an EC 2/1 rule over nodes 1..3 (for EC part scenarios)
+	remote  []object.Object // objects sent to remote nodes (capture of freshly made EC parts)
+	ecParts []object.Object // valid EC parts of one object, made by the real pipeline
+	tokSeq  int
+	tokens  map[string]*session.Object
+}
+
+// container source: the policy must carry the EC rule for the format validator
+func (w *c24World) Get(cid.ID) (container.Container, error) {
+	var c container.Container
+	var p netmap.PlacementPolicy
+	if w.ecMode {
+		p.SetECRules([]netmap.ECRule{netmap.NewECRule(2, 1)})
+	}
+	c.SetPlacementPolicy(p)
+	return c, nil
+}
+
+func (w *c24World) SendReplicationRequestToNode(_ context.Context, reqBin []byte, _ netmap.NodeInfo) ([]byte, error) {
+	var req protoobject.ReplicateRequest
+	if err := proto.Unmarshal(reqBin, &req); err != nil {
+		return nil, err
+	}
+	var obj object.Object
+	if err := obj.FromProtoMessage(req.Object); err != nil {
+		return nil, err
+	}
+	w.remote = append(w.remote, obj)
+	return nil, nil
+}
+
+func (w *c24World) setEC(on bool) {
+	w.ecMode = on
+	if on {
+		w.sc = &putScenario{Typ: "REG", Trusted: true, Rep: []ruleJ{}, Ec: []ecJ{{Nodes: []int{1, 2, 3}, D: 2, P: 1}}, Ok: w.sc.Ok}
+	} else {
+		w.sc = &putScenario{Typ: "REG", Trusted: true, Rep: []ruleJ{{Nodes: []int{1}, N: 1}}, Ec: []ecJ{}, Ok: w.sc.Ok}
+	}
+}
+
+// makeECParts lets the real pipeline split one object into EC parts and keeps them.
+func (w *c24World) makeECParts(r *rand.Rand) {
+	w.setEC(true)
+	defer w.setEC(false)
+	out := w.run(valScenario{Path: "trusted", Mut: "none", Len: 50, Decl: 50, Chunks: []int{20, 30}, Max: 1 << 20}, r)
+	if out.Res != "ok" {
+		panic("cannot make EC parts: " + out.Err)
+	}
+	w.ecParts = nil
+	for _, o := range append(slices.Clone(w.stored), w.remote...) {
+		if len(o.Attributes()) > 0 && o.Attributes()[0].Key() == ecRuleAttr {
+			w.ecParts = append(w.ecParts, o)
+		}
+	}
+	if len(w.ecParts) != 3 {
+		panic(fmt.Sprintf("expected 3 EC parts, got %d", len(w.ecParts)))
+	}
+}
+
+// newTokens issues the session tokens of one sequence: issuer = the client (node 2 key), session keys = keys 4 / 5.
+func (w *c24World) newTokens() {
+	w.tokens = map[string]*session.Object{}
+	issuer := user.NewAutoIDSigner(*w.ids[2].key)
+	for name, k := range map[string]int{"A": 4, "B": 5} {
+		var tok session.Object
+		tok.SetID(uuid.New())
+		tok.SetExp(1000)
+		tok.SetNbf(1)
+		tok.SetIat(1)
+		tok.BindContainer(w.cnr)
+		tok.ForVerb(session.VerbObjectPut)
+		tok.SetAuthKey((*neofsecdsa.PublicKey)(&w.ids[k].key.PublicKey))
+		kit.Must(tok.Sign(issuer))
+		w.tokens[name] = &tok
+	}
 }
 
 func (w *c24World) MaxObjectSize() uint64 { return w.maxObj }
@@ -97,6 +190,7 @@ func newC24World() *c24World {
 		putsvc.WithSplitChainVerifier(w),
 		putsvc.WithTombstoneVerifier(w),
 		putsvc.WithPostPlacementReplicator(w),
+		putsvc.VerifWithObjectSessionsCache(64),
 	)
 	// one REP rule with the serving node only
 	w.sc = &putScenario{Typ: "REG", Trusted: true, Rep: []ruleJ{{Nodes: []int{1}, N: 1}}, Ec: []ecJ{}, Ok: []string{"y", "y", "y", "y", "y", "y", "y", "y"}}
@@ -151,6 +245,26 @@ func (w *c24World) build(sc valScenario, r *rand.Rand) (object.Object, []byte) {
 		obj.SetSplitID(object.NewSplitID())
 	}
 	obj.SetAttributes(attrs...)
+	sessKey := 0
+	if sc.Sess != "" && sc.Path != "trusted" {
+		tok := *w.tokens[sc.Sess]
+		sessKey = map[string]int{"A": 4, "B": 5}[sc.Sess]
+		switch sc.Mut {
+		case "sessForeign": // signed by a key the token was not issued for
+			sessKey = 3
+		case "sessOwner": // the object claims an owner that did not issue the token
+			obj.SetOwner(user.NewFromECDSAPublicKey(w.ids[3].key.PublicKey))
+		case "sessTokSig": // token body changed after it was signed by the issuer
+			tok.SetExp(tok.Exp() + 1)
+		case "sessOtherTok": // token of the same issuer, but for the other session key
+			other := "B"
+			if sc.Sess == "B" {
+				other = "A"
+			}
+			tok = *w.tokens[other]
+		}
+		obj.SetSessionToken(&tok)
+	}
 	if sc.Path == "trusted" {
 		obj.SetPayloadSize(uint64(sc.Decl))
 		return obj, payload
@@ -171,6 +285,9 @@ func (w *c24World) build(sc valScenario, r *rand.Rand) (object.Object, []byte) {
 	signer := neofscrypto.Signer(owner)
 	if sc.Mut == "sigkey" {
 		signer = user.NewAutoIDSigner(*w.ids[3].key)
+	}
+	if sessKey != 0 {
+		signer = user.NewAutoIDSigner(*w.ids[sessKey].key)
 	}
 	kit.Must(obj.SetIDWithSignature(signer))
 	switch sc.Mut {
@@ -193,9 +310,87 @@ func (w *c24World) build(sc valScenario, r *rand.Rand) (object.Object, []byte) {
 	return obj, payload
 }
 
+// buildECPart takes a valid EC part made by the real pipeline and spoils exactly one aspect. IDs are
+// recomputed after header changes so that only the named aspect is invalid.
+func (w *c24World) buildECPart(sc valScenario, r *rand.Rand) (object.Object, []byte) {
+	var obj object.Object
+	w.ecParts[sc.Part%len(w.ecParts)].CopyTo(&obj)
+	reid := func() { kit.Must(obj.CalculateAndSetID()) }
+	setAttr := func(key, val string) {
+		as := obj.Attributes()
+		for i := range as {
+			if as[i].Key() == key {
+				as[i].SetValue(val)
+			}
+		}
+		obj.SetAttributes(as...)
+	}
+	switch sc.Mut {
+	case "ecid":
+		id := obj.GetID()
+		id[3] ^= 0x10
+		obj.SetID(id)
+	case "ecpartidx":
+		setAttr(ecPartAttr, "7")
+		reid()
+	case "ecruleidx":
+		setAttr(ecRuleAttr, "3")
+		reid()
+	case "ecnoparent":
+		obj.ResetRelations()
+		reid()
+	case "ecchecksum": // payload does not match the (unchanged) header
+		pl := slices.Clone(obj.Payload())
+		pl[0] ^= 0xff
+		obj.SetPayload(pl)
+	case "ecparthash": // self-consistent part whose checksum is not the one listed in the parent
+		pl := slices.Clone(obj.Payload())
+		pl[0] ^= 0xff
+		obj.SetPayload(pl)
+		obj.CalculateAndSetPayloadChecksum()
+		reid()
+	case "ecsigned":
+		kit.Must(obj.Sign(user.NewAutoIDSigner(*w.ids[1].key)))
+	case "ecparentsig":
+		par := *obj.Parent()
+		sig := par.Signature()
+		v := slices.Clone(sig.Value())
+		v[len(v)/2] ^= 0x01
+		ns := neofscrypto.NewSignature(sig.Scheme(), sig.PublicKey(), v)
+		par.SetSignature(&ns)
+		obj.SetParent(&par)
+		reid()
+	case "ecparentid":
+		par := *obj.Parent()
+		id := par.GetID()
+		id[9] ^= 0x04
+		par.SetID(id)
+		obj.SetParent(&par)
+		obj.SetParentID(id)
+		reid()
+	case "ecsize": // one byte more than the rule allows for this parent
+		obj.SetPayload(append(slices.Clone(obj.Payload()), 0))
+		obj.SetPayloadSize(uint64(len(obj.Payload())))
+		obj.CalculateAndSetPayloadChecksum()
+		reid()
+	}
+	return obj, obj.Payload()
+}
+
 func (w *c24World) run(sc valScenario, r *rand.Rand) (out valOut) {
-	w.stored, w.putCount, w.failAt, w.maxObj = nil, 0, sc.Fail, uint64(sc.Max)
-	obj, payload := w.build(sc, r)
+	w.stored, w.remote, w.putCount, w.failAt, w.maxObj = nil, nil, 0, sc.Fail, uint64(sc.Max)
+	if sc.Seq > 0 && sc.Step == 0 {
+		w.newTokens()
+	}
+	var obj object.Object
+	var payload []byte
+	if sc.Path == "ecput" || sc.Path == "ecrepl" {
+		w.setEC(true)
+		defer w.setEC(false)
+		obj, payload = w.buildECPart(sc, r)
+	} else {
+		obj, payload = w.build(sc, r)
+	}
 	defer func() {
 		if p := recover(); p != nil {
 			out.Res, out.Err = "panic", fmt.Sprint(p)
@@ -207,7 +402,7 @@ func (w *c24World) run(sc valScenario, r *rand.Rand) (out valOut) {
 	var err error
 	var sent []byte
 	switch sc.Path {
-	case "replicate":
+	case "replicate", "ecrepl":
 		sent = payload
 		err = w.svc.ValidateAndStoreObjectLocally(context.Background(), obj)
 	default:
@@ -218,7 +413,7 @@ func (w *c24World) run(sc valScenario, r *rand.Rand) (out valOut) {
 			}
 			hdr := obj.CutPayload()
 			rest := payload
-			if sc.Path == "signed" && sc.Hdr > 0 {
+			if sc.Path != "trusted" && sc.Hdr > 0 {
 				hdr.SetPayload(payload[:min(sc.Hdr, len(payload))])
 				rest = payload[min(sc.Hdr, len(payload)):]
 				sent = append(sent, hdr.Payload()...)
@@ -249,6 +444,9 @@ func (w *c24World) run(sc valScenario, r *rand.Rand) (out valOut) {
 	if err != nil {
 		out.Res, out.Err = "error", err.Error()
 	}
+	if sc.Path == "ecput" { // the part goes to the first accepting node of its sequence, local or remote
+		w.stored = append(w.stored, w.remote...)
+	}
 	out.Stored = len(w.stored)
 	out.IDok, out.Sigok = true, true
 	var whole []byte
@@ -260,7 +458,12 @@ func (w *c24World) run(sc valScenario, r *rand.Rand) (out valOut) {
 		if cs, ok := o.PayloadChecksum(); !ok || cs.Type() != checksum.SHA256 || !bytes.Equal(cs.Value(), sum256(o.Payload())) {
 			out.IDok = false
 		}
-		if !o.VerifySignature() {
+		if len(o.Attributes()) > 0 && o.Attributes()[0].Key() == ecRuleAttr {
+			// EC parts are unsigned and bound to the signed parent header
+			if o.Signature() != nil || o.Parent() == nil || !o.Parent().VerifySignature() || o.Parent().VerifyID() != nil {
+				out.Sigok = false
+			}
+		} else if !o.VerifySignature() {
 			out.Sigok = false
 		}
 		if o.Type() == object.TypeRegular {
@@ -374,6 +577,55 @@ func randomVal(r *rand.Rand) valScenario {
 	return sc
 }
 
+// sessionSequence: 2-4 objects through the one service instance sharing the tokens of the sequence. The first
+// step is usually the legitimate object (which primes any per-token cache); later steps reuse the token with a
+// foreign signer / another owner / a changed token / the other token, or are legitimate again.
+func sessionSequence(seq int, r *rand.Rand) []valScenario {
+	n := 2 + r.Intn(3)
+	res := make([]valScenario, n)
+	for i := range res {
+		sc := valScenario{Path: "signed", Mut: "none", Max: 1 << 16, Sess: "A", Seq: seq, Step: i}
+		if r.Intn(3) == 0 {
+			sc.Path = "replicate"
+		}
+		if r.Intn(4) == 0 {
+			sc.Sess = "B"
+		}
+		sc.Len = r.Intn(30)
+		sc.Decl = sc.Len
+		if i > 0 || r.Intn(4) == 0 {
+			if r.Intn(4) != 0 {
+				sc.Mut = sessMutations[r.Intn(len(sessMutations))]
+			}
+		}
+		sc.Chunks = []int{}
+		if sc.Path == "signed" {
+			sc.Chunks = chunking(sc.Len, r)
+		}
+		res[i] = sc
+	}
+	return res
+}
+
+func ecPartScenario(r *rand.Rand) valScenario {
+	sc := valScenario{Path: "ecrepl", Mut: "none", Max: 1 << 16, Part: r.Intn(3), Chunks: []int{}}
+	if r.Intn(2) == 0 {
+		sc.Path = "ecput"
+	}
+	if r.Intn(4) != 0 {
+		sc.Mut = ecMutations[r.Intn(len(ecMutations))]
+	}
+	sc.Len = 25 // parts of the 50-byte object under EC 2/1
+	if sc.Mut == "ecsize" {
+		sc.Len = 26
+	}
+	sc.Decl = sc.Len
+	if sc.Path == "ecput" {
+		sc.Chunks = chunking(sc.Len, r)
+	}
+	return sc
+}
+
 // c24 rnd <n> <out>; c24 run <scenarios> <records>
 func c24(args []string) {
 	switch args[0] {
@@ -381,8 +633,22 @@ func c24(args []string) {
 		n, _ := strconv.Atoi(args[1])
 		out := kit.NewW(args[2])
 		r := kit.Rand(24)
-		for i := 0; i < n; i++ {
-			out.Emit(randomVal(r))
+		seq := 0
+		for i := 0; i < n; {
+			switch r.Intn(10) {
+			case 0: // every 10th draw is a session sequence of 2-4 objects
+				seq++
+				for _, sc := range sessionSequence(seq, r) {
+					out.Emit(sc)
+					i++
+				}
+			case 2:
+				out.Emit(ecPartScenario(r))
+				i++
+			default:
+				out.Emit(randomVal(r))
+				i++
+			}
 		}
 		out.Close()
 	case "run":
@@ -390,6 +656,7 @@ func c24(args []string) {
 		out := kit.NewW(args[2])
 		w := newC24World()
 		r := kit.Rand(2424)
+		w.makeECParts(r)
 		for _, sc := range scs {
 			if sc.Chunks == nil {
 				sc.Chunks = []int{}
